@@ -527,3 +527,61 @@ Proof.
     destruct (rd r) as [x|] eqn:Er; [right|left; reflexivity].
     apply rd_some in Er. destruct Er as [Ew Ev]. exists r. rewrite Efs. simpl. repeat split; auto.
 Qed.
+
+(* ---- waiters: the frame ------------------------------------------------------------------------------
+   Every step of waiter w (or of SetImpl on waiter w's job) produces a state of this shape; the obligations are
+   about w alone. *)
+
+Definition wstate (s : st) (h' : hd) (t' : list nat) (ic' : option nat) (w : nat) (r' : wrec) (u' : bool)
+                  (rl' : list (nat * nat * bool)) : st :=
+  {| cnt := cnt s; uu := uu s; fired := fired s; broken := broken s; crash := crash s; uaf := u';
+     head := h'; pend := pend s; todo := t'; incall := ic'; ws := upd w r' (ws s); fs := fs s;
+     rels := rl'; readys := readys s; gots := gots s |}.
+
+Lemma gb_all_zero s : Gb s = true -> is_all (head s) = true -> broken s = false -> cnt s = 0 /\ fired s = true.
+Proof.
+  unfold Gb. intros G Ha Hb. rewrite Ha, Hb in G. destruct (fired s); bsimp; try discriminate.
+  split_and. auto.
+Qed.
+
+Lemma inv_w_frame s w r h' t' ic' r' u' rl' :
+  Inv s -> nth_error (ws s) w = Some r ->
+  is_all h' = is_all (head s) ->
+  (forall w0, w0 <> w -> occ w0 (stk h' ++ t') = occ w0 (lst s)) ->
+  (forall w0, w0 <> w -> icb ic' w0 = icb (incall s) w0) ->
+  wloc (is_all h') (occ w (stk h' ++ t')) (icb ic' w) r' = true ->
+  Forall (fun x => x < length (ws s)) (stk h' ++ t') ->
+  (forall x, ic' = Some x -> x < length (ws s)) ->
+  (is_all h' = false -> t' = [] /\ ic' = None) ->
+  u' = false ->
+  (rl' = rels s /\ relc r' = relc r) \/
+  (rl' = rels s ++ [(w, cnt s, fired s)] /\ relc r' = S (relc r) /\ is_all (head s) = true) ->
+  Inv (wstate s h' t' ic' w r' u' rl').
+Proof.
+  intros (G & C & F & (W1 & W2 & W3) & (R1 & R2 & R3 & R4 & R5)) Hn Ha Ho Hi Hd He1 He2 Hf Hu Hr.
+  assert (Hlt : w < length (ws s)) by (eapply nth_some_lt; eauto).
+  split.
+  { unfold Gb in *; simpl. rewrite Ha, Hu.
+    destruct (is_all (head s)) eqn:Eh.
+    - destruct (fired s), (broken s), (crash s), (uaf s); bsimp; try discriminate; auto.
+    - rewrite <- Ha in Hf. destruct (Hf Ha) as [-> ->]. rewrite Ha in G. clear Hf.
+      destruct (fired s), (broken s), (crash s), (uaf s), (todo s), (incall s); bsimp; try discriminate; auto. }
+  split; [exact C|]. split; [exact F|]. split.
+  { unfold Wpart; simpl. rewrite upd_length. split; [|split; auto].
+    intros w0 r0 Hn0. destruct (Nat.eq_dec w0 w) as [->|Hne].
+    - erewrite nth_upd_same in Hn0; eauto. inv_some Hn0. exact Hd.
+    - rewrite nth_upd_other in Hn0; auto. rewrite Ha, Ho, Hi; auto. apply W1; auto. }
+  unfold Rpart; simpl. rewrite upd_length.
+  destruct Hr as [[-> Hrc]|(-> & Hrc & Hall)].
+  - split; [exact R1|]. split; [exact R2|]. split; [exact R3|]. split; [|exact R5].
+    intros w0 r0 Hn0. destruct (Nat.eq_dec w0 w) as [->|Hne].
+    + erewrite nth_upd_same in Hn0; eauto. inv_some Hn0. rewrite Hrc. apply R4; auto.
+    + rewrite nth_upd_other in Hn0; auto.
+  - split; [|split; [exact R2|split; [exact R3|split]]].
+    + intros Hb. apply Forall_app_one; auto. destruct (gb_all_zero _ G Hall Hb). split; simpl; auto.
+    + intros w0 r0 Hn0. rewrite relcount_app. simpl. destruct (Nat.eq_dec w0 w) as [->|Hne].
+      * erewrite nth_upd_same in Hn0; eauto. inv_some Hn0. rewrite Hrc, Nat.eqb_refl. rewrite (R4 _ _ Hn). simpl. lia.
+      * rewrite nth_upd_other in Hn0; auto. rewrite (R4 _ _ Hn0).
+        replace (Nat.eqb w w0) with false; [simpl; lia|]. symmetry. apply Nat.eqb_neq. auto.
+    + intros x Hx. apply in_app_or in Hx. destruct Hx as [Hx|[<-|[]]]; auto.
+Qed.
